@@ -269,7 +269,7 @@ class Recorder:
         return self.ids[id(tc)]
 
     def stmt(self, tc, s):
-        asserts = [enc(a.source) if hasattr(a, "source") else "!exc" for a in s.assertions]
+        asserts = [enc(a.source.split(".", 1)[0].strip()) for a in s.assertions if isinstance(getattr(a, "source", None), str)]
         return {"bound": None if s.bound_variable is None else enc(s.bound_variable),
                 "btype": self.tid(s.bound_type), "uses": [enc(n) for n in s.used_variables()],
                 "asserts": asserts, "simpleAssign": tc._transform_assign_to_expr(s.node) is not s.node}
@@ -434,7 +434,8 @@ def install_patches():
     def h_remove_unused(orig, self):
         i = REC.oid(self)
         nested(orig, self)
-        REC.emit({"removeUnused": {"id": i}}, {"l": REC.light(self), "full": REC.full(self)})
+        REC.emit({"removeUnused": {"id": i, "keep": REC.check.keeps_assertions()}},
+                 {"l": REC.light(self), "full": REC.full(self)})
 
     def with_draws(fn):
         """Run fn while recording the index every randomness.choice picks."""
@@ -698,6 +699,7 @@ class C15(PropertyCheck):
         self._tmp = None
         self._clusters = {}
         self._store = {}
+        self._keeps = None
 
     # -- generation ---------------------------------------------------------------------------
     def gen_case(self, rng):
@@ -730,6 +732,27 @@ class C15(PropertyCheck):
         cl = generate_test_cluster(name)
         self._clusters[key] = (name, cl)
         return self._clusters[key]
+
+    def keeps_assertions(self):
+        """Which version of remove_unused_variables the tree has (behavioural probe, once per run): with
+        proposed_fixes/C19-remove-unused-keeps-assertions.diff an asserted but unread variable stays bound.
+        Both versions are modelled (`TC.removeUnusedV`) and proved to preserve WF."""
+        if self._keeps is None:
+            global REC
+            import libcst as cst
+            import pynguin.assertion.assertion as ass
+            import pynguin.testcase.testcase as tcm
+            saved, REC = REC, None
+            try:
+                t = tcm.TestCase()
+                t.add_statement(tcm.Statement(node=cst.parse_module("var_0 = 5\n").body[0], bound_variable="var_0",
+                                              bound_type=int, assertions=[ass.ObjectAssertion("var_0", 5)]))
+                t.remove_unused_variables()
+                self._keeps = t.get_statement(0).bound_variable == "var_0"
+            finally:
+                REC = saved
+            self.count("tree:remove_unused_keeps_assertions" if self._keeps else "tree:remove_unused_drops_assertions")
+        return self._keeps
 
     def _cleanup(self):
         if self._tmp is not None:
